@@ -9,7 +9,7 @@
    of the Go memory model; what is proved is the absence of conflicting unsynchronised accesses in
    that table - the race detector run of the harness is the schedule search (design/C18.md). *)
 From Coq Require Import List String Bool Arith.
-From Storage Require Import Db.Mvcc Db.MvccProofs Db.Access Db.AccessProofs Db.Workload Db.WorkloadProofs.
+From Storage Require Import Db.Mvcc Db.MvccProofs Db.MvccKeepProofs Db.Access Db.AccessProofs Db.Workload Db.WorkloadProofs.
 Import ListNotations.
 
 (* Every read transaction observes exactly one committed state: each answer is the evaluation of
@@ -61,3 +61,18 @@ Theorem placed_answer_independent_of_place : forall (d1 d2 : nat) (q : query) (s
   eval_placed (d1, q) s = eval_placed (d2, q) s.
 Proof. exact eval_placed_place_irrelevant. Qed.
 Print Assumptions placed_answer_independent_of_place.
+
+(* What a reader has read stays what it was: whatever happens after an observation was made - further
+   reads, the end of its transaction, any number of writer transactions - the reader still holds it,
+   unchanged, below everything it observed later.  (The harness keeps entities, maps and id lists beyond
+   the read transaction and compares them with their rendering at load time after later commits and
+   restores: case lines "K".) *)
+Theorem kept_observations_persist :
+  forall (state query answer : Type) (eval : query -> state -> answer)
+         (wtx : Type) (apply_tx : wtx -> state -> option state)
+         (es : list (event query wtx)) (s : sys state query answer) (i : nat) (r : reader query answer),
+  nth_error (readers state query answer s) i = Some r ->
+  exists r', nth_error (readers state query answer (run state query answer eval wtx apply_tx s es)) i = Some r'
+             /\ exists newer, r_obs query answer r' = newer ++ r_obs query answer r.
+Proof. exact kept_observations_persist_lemma. Qed.
+Print Assumptions kept_observations_persist.
